@@ -10,6 +10,7 @@ import (
 	"strings"
 	"time"
 
+	"github.com/anishathalye/porcupine"
 	"github.com/bool64/cache"
 
 	"verif/ref"
@@ -20,7 +21,8 @@ import (
 // C09 — keys are isolated: hash collisions and key-buffer reuse never leak (DESIGN §C09).
 
 type c09Cell struct {
-	Mode     string `json:"mode"` // seq | failover
+	Mode     string `json:"mode"` // seq | failover | conc
+	A        []int  `json:"a,omitempty"` // conc: thread A program
 	Backend  string `json:"backend,omitempty"`
 	Scribble bool   `json:"scribble,omitempty"` // overwrite the key buffer after every call
 	First    int    `json:"first"`
@@ -278,6 +280,13 @@ func c09Cells(tier string) []Cell {
 		}
 	}
 
+	// Concurrent operations on two keys with the SAME hash: per-slot linearizability.
+	for _, b := range backendKinds {
+		for _, a := range c08Progs(2) {
+			cells = append(cells, Cell{ID: c09Cell{Mode: "conc", Backend: b, A: a}.id()})
+		}
+	}
+
 	// Failover: the caller overwrites / reuses the key buffer while the background build runs.
 	progs := [][][]GOp{
 		{{{Key: 0, Mut: true}}, {{Key: 0}}},
@@ -449,9 +458,261 @@ func c09Failover(cfg FCfg, env *Env) CellResult {
 	})
 }
 
+// slot model of two colliding keys: ShardedMap keeps one entry per hash, so c0 and c1 share one slot.
+// (SyncMap keys by the full key: two independent registers.)
+type slotState struct {
+	Present bool
+	Key     int
+	Val     int
+}
+
+type slotIn struct {
+	Op  string
+	Key int
+	Val int
+}
+
+func slotModel(shared bool) porcupine.Model {
+	type st struct{ s [2]slotState } // shared: only s[0] is used
+
+	return porcupine.Model{
+		Init: func() interface{} {
+			var x st
+			x.s[0] = slotState{Present: true, Key: 0, Val: 0}
+
+			return x
+		},
+		Step: func(state, input, output interface{}) (bool, interface{}) {
+			x := state.(st)
+			in := input.(slotIn)
+			out, _ := output.(regOut)
+			i := 0
+
+			if !shared {
+				i = in.Key
+			}
+
+			cur := x.s[i]
+			mine := cur.Present && cur.Key == in.Key
+
+			switch in.Op {
+			case "write":
+				x.s[i] = slotState{Present: true, Key: in.Key, Val: in.Val}
+				return true, x
+			case "read":
+				if out.Kind == "hit" {
+					return mine && cur.Val == out.Val, x
+				}
+
+				return out.Kind == "miss" && !mine, x
+			case "delete":
+				if out.Kind == "found" {
+					if !mine {
+						return false, x
+					}
+
+					x.s[i] = slotState{}
+
+					return true, x
+				}
+
+				return out.Kind == "notfound" && !mine, x
+			}
+
+			return false, x
+		},
+		DescribeOperation: func(in, out interface{}) string { return fmt.Sprintf("%v -> %v", in, out) },
+	}
+}
+
+func c09Conc(cc c09Cell, env *Env) CellResult {
+	res := CellResult{Exhaustive: true, Outcomes: map[string]int{}}
+	keys := c09Keys()[:2]
+	model := slotModel(cc.Backend != "SyncMap")
+
+	type ev struct {
+		in        slotIn
+		out       regOut
+		call, ret int64
+		client    int
+	}
+
+	progsB := c08Progs(1)
+	if env.Thorough() {
+		progsB = c08Progs(2)
+	}
+
+	seenSig := map[string]bool{}
+
+	for pi, pb := range progsB {
+		if env.Replay != nil {
+			var idx int
+			_ = json.Unmarshal(env.Replay.Extra, &idx)
+
+			if idx != pi {
+				continue
+			}
+		}
+
+		var (
+			b    backend
+			evs  []ev
+			tick int64
+			next int
+			bad  []string
+		)
+
+		do := func(client, op int) {
+			ctx := context.Background()
+			k := op % 2
+			e := ev{client: client}
+			tick++
+			e.call = tick
+
+			switch op / 2 {
+			case 0:
+				next++
+				e.in = slotIn{Op: "write", Key: k, Val: next}
+				_ = b.Write(ctx, keys[k], next)
+			case 1:
+				e.in = slotIn{Op: "read", Key: k}
+				v, err := b.Read(ctx, keys[k])
+
+				switch {
+				case err == nil:
+					e.out = regOut{Kind: "hit", Val: v.(int)}
+				case errors.Is(err, cache.ErrNotFound):
+					e.out = regOut{Kind: "miss"}
+				default:
+					bad = append(bad, "Read: "+err.Error())
+				}
+			case 2:
+				e.in = slotIn{Op: "delete", Key: k}
+				err := b.Delete(ctx, keys[k])
+
+				switch {
+				case err == nil:
+					e.out = regOut{Kind: "found"}
+				case errors.Is(err, cache.ErrNotFound):
+					e.out = regOut{Kind: "notfound"}
+				default:
+					bad = append(bad, "Delete: "+err.Error())
+				}
+			}
+
+			tick++
+			e.ret = tick
+			evs = append(evs, e)
+		}
+
+		body := func() {
+			vclock.Reset()
+
+			b = newBackend(cc.Backend, cache.Config{Name: "c09c", ExpirationJitter: -1, TimeToLive: 5 * time.Minute})
+			evs, tick, next, bad = nil, 0, 100, nil
+			_ = b.Write(context.Background(), keys[0], 0)
+
+			vsched.SpawnThread("a", func() {
+				for _, o := range cc.A {
+					do(0, o)
+				}
+			})
+			vsched.SpawnThread("b", func() {
+				for _, o := range pb {
+					do(1, o)
+				}
+			})
+			vsched.Join()
+		}
+
+		check := func(r *vsched.Result) []Violation {
+			sig := "C09 " + cc.Backend + " concurrent-collision"
+
+			if r.Deadlock || r.Panic != nil {
+				return []Violation{{Signature: sig + " fatal", Detail: fmt.Sprintf("deadlock=%v panic=%v %s", r.Deadlock, r.Panic, r.PanicStack)}}
+			}
+
+			var vs []Violation
+
+			for _, m := range bad {
+				vs = append(vs, Violation{Signature: sig + " unexpected", Detail: m})
+			}
+
+			var ops []porcupine.Operation
+			for _, e := range evs {
+				ops = append(ops, porcupine.Operation{ClientId: e.client, Input: e.in, Output: e.out, Call: e.call, Return: e.ret})
+			}
+
+			if len(ops) > 0 && !porcupine.CheckOperations(model, ops) {
+				var sb strings.Builder
+				for _, o := range ops {
+					fmt.Fprintf(&sb, "\n    client %d [%d,%d] %v -> %v", o.ClientId, o.Call, o.Return, o.Input, o.Output)
+				}
+
+				vs = append(vs, Violation{Signature: sig + " not-linearizable",
+					Detail: "history on two keys with equal xxhash64 (key 0 preloaded with value 0) is not explained by any order in which an operation on one key only affects that key, except that a write may evict the colliding key:" + sb.String()})
+			}
+
+			return vs
+		}
+
+		if env.Replay != nil {
+			r := vsched.Replay(env.Replay.Choices, body)
+			res.Violations = check(r)
+
+			fmt.Print(vsched.FormatTrace(r))
+
+			return res
+		}
+
+		st := vsched.Explore(vsched.Options{PreemptionBound: -1, EnvBound: 0, HBCache: true, MaxExecs: 200000, Deadline: env.Deadline}, body, func(r *vsched.Result) bool {
+			for _, v := range check(r) {
+				if !seenSig[v.Signature] {
+					seenSig[v.Signature] = true
+					v.Choices = r.Choices()
+					v.Extra, _ = json.Marshal(pi)
+					v.Detail += fmt.Sprintf("\n  program: A=%v B=%v", opNames(cc.A), opNames(pb))
+					res.Violations = append(res.Violations, v)
+				}
+			}
+
+			var oc []string
+			for _, e := range evs {
+				oc = append(oc, e.out.Kind)
+			}
+
+			res.Outcomes[strings.Join(oc, ",")]++
+
+			if res.Sample == nil && len(evs) > 2 {
+				res.Sample = map[string]interface{}{"colliding_keys_concurrent": true, "A": opNames(cc.A), "B": opNames(pb), "schedule": r.Choices()}
+			}
+
+			return true
+		})
+
+		res.Execs += st.Execs
+		res.Transitions += st.Transitions
+		res.States += st.HBStates
+
+		if st.MaxDepth > res.MaxDepth {
+			res.MaxDepth = st.MaxDepth
+		}
+
+		if !st.Exhaustive {
+			res.Exhaustive, res.CapHit = false, st.CapHit
+		}
+	}
+
+	return res
+}
+
 func c09Run(c Cell, env *Env) CellResult {
 	var cc c09Cell
 	_ = json.Unmarshal([]byte(c.ID), &cc)
+
+	if cc.Mode == "conc" {
+		return c09Conc(cc, env)
+	}
 
 	if cc.Mode == "failover" {
 		return c09Failover(*cc.F, env)
@@ -467,7 +728,8 @@ func init() {
 		Rule: "three pairwise xxhash64-colliding 64-byte keys are CONSTRUCTED from the hash's algebra (asserted against cespare/xxhash at run time) plus one plain key; " +
 			"BFS over sequences of Read/Write/Delete/ExpireAll/Advance/AddInvalidationLabels/InvalidateByLabels on them for 3 backends, once with fresh key slices and once with one scratch buffer that is overwritten after every call; " +
 			"oracle: every answer is the ideal per-key model's answer, or a miss that a later write of a colliding key explains; Walk reports only written keys with their own value and expiry; " +
-			"Failover: caller overwrites / reuses the key buffer at every scheduling position relative to the background build; the built value must sit under the original key bytes",
+			"Failover: caller overwrites / reuses the key buffer at every scheduling position relative to the background build; the built value must sit under the original key bytes; " +
+			"concurrent: thread A every 1-2 op sequence, thread B every 1 (thorough 1-2) op sequence over {Write,Read,Delete} x two colliding keys, all schedules, each history checked with porcupine against a slot model (an operation affects its own key only; a write may evict the colliding key)",
 		Assumptions: []string{
 			"a collision may cost a miss only when a colliding key was written after the key's last write (stricter than 'any miss', independent of the slot design)",
 			"quick: sequences of 4 operations; thorough: sequences of 6",
